@@ -697,7 +697,7 @@ fn run_check(cfg: &Config) -> i32 {
         && stats.get("probe.arb_source_ran_dry_in_decl_with_retry_loop") > 0
         && stats.get("probe.non_finite_word_fed_to_float_generator") > 0;
     extra.insert("reach_probes_nonzero".into(), json!(reach_ok));
-    if !reach_ok {
+    if !reach_ok && out.new_violations == 0 {
         report::harness_error("a reach probe is stuck at zero: workload does not exercise the fault");
     }
     report::write_evidence(
